@@ -33,6 +33,8 @@ def run(index, rep):
     rep.guard(korea, index, rep)
     rep.guard(sentinel, index, rep)
     rep.guard(sibling_columns, index, rep)
+    rep.guard(korea_labels, index, rep)
+    rep.guard(stale_row_values, index, rep)
 
 
 def load_table(index):
@@ -418,6 +420,88 @@ def sentinel(index, rep):
     if n_valid < 20 or n_sent < 20:
         raise AnalysisError(f"clean_up_nw_csv: {n_valid} valid / {n_sent} no-data cell cases analysed (expected 20 each)")
     rep.require_min(rule, 40)
+
+
+IU = "src/utilities/import_utilities.py"
+
+
+def korea_labels(index, rep):
+    """the merge decides per table, from the label of the KOR row, whether a table has the two Koreas' codes exchanged.  The tables built with
+    the shared country-name list carry that list's labels: the label it gives KOR must be one the test accepts, the label it gives PRK must not"""
+    rule = "C17.WIRE"
+    mod = index.module(IFD)
+    accepted = None
+    for n in ast.walk(mod):
+        if isinstance(n, ast.Compare) and len(n.ops) == 1 and isinstance(n.ops[0], (ast.In, ast.NotIn)) and "'KOR'" in norm_src(n.left) \
+                and isinstance(n.comparators[0], (ast.List, ast.Tuple, ast.Set)):
+            vals = [str_const(e) for e in n.comparators[0].elts]
+            if all(v is not None for v in vals):
+                accepted = (vals, ".lower()" in norm_src(n.left), n)
+    if accepted is None:
+        raise AnalysisError("import_food_data.py: the test on the KOR row's label was not found")
+    cls = index.cls(IU, "ImportUtilities")
+    lists = {st.targets[0].id: st.value for st in cls.body if isinstance(st, ast.Assign) and len(st.targets) == 1 and isinstance(st.targets[0], ast.Name)
+             and isinstance(st.value, ast.List) and all(isinstance(e, ast.Constant) and isinstance(e.value, str) for e in st.value.elts)}
+    codes = [(k, v) for k, v in lists.items() if any(e.value == "KOR" for e in v.elts) and any(e.value == "PRK" for e in v.elts)]
+    n_checked = 0
+    for cname, cl in codes:
+        ik = [e.value for e in cl.elts].index("KOR")
+        ip = [e.value for e in cl.elts].index("PRK")
+        for nname, nl in lists.items():
+            if nname == cname or len(nl.elts) != len(cl.elts) or not any("orea" in e.value for e in nl.elts):
+                continue
+            lab_k, lab_p = nl.elts[ik].value, nl.elts[ip].value
+            norm = (lambda x: x.lower()) if accepted[1] else (lambda x: x)
+            ok = norm(lab_k) in accepted[0] and norm(lab_p) not in accepted[0]
+            n_checked += 1
+            rep.check(ok, rule, f"korea-labels:{nname}",
+                      f"the shared name list labels KOR {lab_k!r} and PRK {lab_p!r}; the merge takes a table for correct only when the KOR row's label is "
+                      f"one of {accepted[0]}: every table built with this list would have its (correct) codes exchanged", loc=loc(IU, nl))
+    if n_checked == 0:
+        raise AnalysisError("ImportUtilities: the parallel code / name lists holding KOR and PRK were not found")
+
+
+def stale_row_values(index, rep):
+    """per-row values in the import scripts: a value that a row's iteration assigns only under a condition (no else, no default earlier in the
+    iteration, nothing before the loop) and uses afterwards is, for a row that does not meet the condition, the previous row's value"""
+    rule = "C17.WIRE"
+    n = 0
+    for rel in [r for r in index.py_files(SCRIPTS)] + [IU]:
+        mod = index.module(rel)
+        scopes = [mod] + [f for f in ast.walk(mod) if isinstance(f, ast.FunctionDef)]
+        for sc in scopes:
+            stmts = list(walk_no_nested(sc)) if isinstance(sc, ast.FunctionDef) else [x for x in ast.walk(sc) if not any(
+                isinstance(p_, ast.FunctionDef) for p_ in _parents(x))]
+            for loop in [x for x in stmts if isinstance(x, ast.For)]:
+                n += 1
+                inside = {id(x) for x in ast.walk(loop)}
+                outside_stores = {x.id for x in stmts if isinstance(x, ast.Name) and isinstance(x.ctx, ast.Store) and id(x) not in inside}
+                uncond = {x.id for x in ast.walk(loop.target) if isinstance(x, ast.Name)}
+                for i, st in enumerate(loop.body):
+                    if isinstance(st, ast.If) and not st.orelse:
+                        cond_only = {x.id for b in st.body for x in ast.walk(b) if isinstance(x, ast.Name) and isinstance(x.ctx, ast.Store)} - uncond - outside_stores
+                        aug = {x.target.id for b in st.body for x in ast.walk(b) if isinstance(x, ast.AugAssign) and isinstance(x.target, ast.Name)}
+                        later = {x.id for s2 in loop.body[i + 1:] for x in ast.walk(s2) if isinstance(x, ast.Name) and isinstance(x.ctx, ast.Load)}
+                        for name in sorted((cond_only - aug) & later):
+                            rep.violation(rule, f"stale-row-value:{rel.split('/')[-1]}:{name}",
+                                          f"`{name}` is assigned only when `{norm_src(st.test)[:60]}` holds and is used later in the same iteration: for a row "
+                                          "that does not meet the condition it still holds the previous row's value (the table gets another country's number)",
+                                          loc=loc(rel, st))
+                    if isinstance(st, ast.If):
+                        if st.orelse:
+                            a_ = {x.id for b in st.body for x in ast.walk(b) if isinstance(x, ast.Name) and isinstance(x.ctx, ast.Store)}
+                            b_ = {x.id for b in st.orelse for x in ast.walk(b) if isinstance(x, ast.Name) and isinstance(x.ctx, ast.Store)}
+                            uncond |= a_ & b_
+                    else:
+                        uncond |= {x.id for x in ast.walk(st) if isinstance(x, ast.Name) and isinstance(x.ctx, ast.Store)}
+    rep.ok(rule, "no per-row value of the import scripts is carried over from the previous row", detail=f"{n} loops read")
+
+
+def _parents(x):
+    p_ = getattr(x, "_parent", None)
+    while p_ is not None:
+        yield p_
+        p_ = getattr(p_, "_parent", None)
 
 
 def korea(index, rep):
